@@ -369,6 +369,10 @@ def _do_misc(w: World, op: dict, idx: int, log: EventLog, viol: list, stats: Cou
     elif kind == "gc":
         gc.collect()
         stats["gc_collect"] += 1
+    elif kind == "user_rebind":
+        if not w.control:
+            _user_rebind(w, op.get("what", "class_call"))
+            stats["user_rebinds"] += 1
     elif kind == "decorate_late":
         if not w.control and not w.late_done:
             from jax2onnx import onnx_function
@@ -400,6 +404,44 @@ def _fresh(viol: list, plan: dict) -> bool:
         if not any(re.fullmatch(p, v["sig"]) for p in pats):
             return True
     return False
+
+
+def _user_rebind(w: World, what: str) -> None:
+    """The user legitimately re-binds an attribute the converter also patches
+    (a semantically identical pass-through, so eager expectations are unchanged).
+    From now on the converter must restore the user's object."""
+    import functools
+
+    from sim.fixtures import lib
+
+    if what == "class_call":
+        tgt: Any = lib.PlainScale
+        attr = "__call__"
+    elif what == "module_function":
+        tgt = lib
+        attr = "fn_sin2"
+    else:
+        import flax.nnx as nnx
+
+        tgt = nnx
+        attr = "relu"
+    old = getattr(tgt, attr)
+
+    if what == "class_call":
+
+        def __call__(self, x):  # noqa: N807
+            return old(self, x)
+
+        new: Any = __call__
+    else:
+
+        @functools.wraps(old)
+        def new(*a, **k):
+            return old(*a, **k)
+
+    setattr(tgt, attr, new)
+    w.ws.rebase(tgt, attr)
+    w.base.rebase(tgt, attr)
 
 
 def run(plan: dict) -> dict:
@@ -540,8 +582,10 @@ def gen_history(seed: int, run: int, registry: list[str], n_ops: int) -> list[di
             elif open_ctx < 2:
                 ops.append({"op": "enter_x64_ctx", "value": r.random() < 0.6})
                 open_ctx += 1
-        elif u < 0.92:
+        elif u < 0.90:
             ops.append({"op": "gc"})
+        elif u < 0.92:
+            ops.append({"op": "user_rebind", "what": r.choice(["class_call", "module_function", "library_function"])})
         elif u < 0.96:
             ops.append({"op": "sweep"})
         elif late:
@@ -676,6 +720,7 @@ def main(tier: str) -> int:
                 "late_decorations": stats.get("late_decorations", 0),
                 "nested_decorations": stats.get("nested_decorations", 0),
                 "set_x64": stats.get("set_x64", 0),
+                "user_rebinds": stats.get("user_rebinds", 0),
                 "x64_ctx_entered": stats.get("x64_ctx_entered", 0),
                 "x64_ctx_exited": stats.get("x64_ctx_exited", 0),
                 "gc_collect": stats.get("gc_collect", 0),
